@@ -98,6 +98,7 @@ def runBin : List String → String
   | "slab-mm" :: toks => Slab.run ("slab-mm" :: toks)
   | "cr-enc" :: toks => Slab.runCR toks
   | "wind-enc" :: toks => Slab.runWind toks
+  | "bnd-enc" :: toks => Slab.runBnd toks
   | "uamiv-write" :: toks =>
     match parseWriteIn toks with
     | some i => "ok " ++ showWords (writerContent i).encode
